@@ -11,7 +11,7 @@ ASSUMPTIONS = ['compositional over base58 text: in the symbolic run base58.encod
                '(true up to a 2^-32 coincidence); concrete replay uses the real functions',
                'double-SHA256 / HASH160 uninterpreted', 'public-key validity is not consulted (accept_invalid=True path of the bare-pubkey variants)']
 STUBS = ['hashlib (UF)', 'bitcoin.core.key.CECKey (oracle)', 'struct']
-OUTSIDE = ['arbitrary strings longer than 10 characters', 'bare uncompressed public keys: known finding (the converter hashes 64 of the 65 key bytes; pinned by the test suite)']
+OUTSIDE = ['arbitrary strings longer than 8 characters', 'bare uncompressed public keys: known finding (the converter hashes 64 of the 65 key bytes; pinned by the test suite)']
 EXPECTED_LABELS = ['roundtrip: script -> address -> text -> address -> script', 'class / prefix / payload as prescribed for the chain',
                    'cross-chain text is refused with CBitcoinAddressError', 'unsupported witness version refused with CBitcoinAddressError',
                    'wrong payload length refused with CBitcoinAddressError', 'arbitrary text refused with CBitcoinAddressError']
@@ -24,7 +24,7 @@ def bounds(tier):
     return dict(chains='all sequences of <= 3 SelectParams calls over the 4 chains (quick: all of length 1 and 2, length 3 sampled)',
                 payloads='20-byte hashes and 20/32-byte programs fully symbolic', variants='non-canonical pushes (PUSHDATA1/2/4), bare compressed pubkey',
                 negatives='cross-chain texts for all ordered chain pairs with different prefixes; witness versions 1..16; Base58Check payload lengths 0..34 '
-                          'with known and unknown version bytes; arbitrary strings of <= %d characters over all code points' % (6 if tier == 'quick' else 10))
+                          'with known and unknown version bytes; arbitrary strings of <= %d characters over all code points' % (6 if tier == 'quick' else 8))
 
 
 class _Patched(object):
@@ -342,6 +342,6 @@ def instances(tier):
     for which in ('pk', 'sh', 'any'):
         for chain in CHAINS:
             out.append(dict(h='b58len', p=dict(chain=chain, plen=20, which=which)))
-    for n in range(0, (6 if tier == 'quick' else 10) + 1):
+    for n in range(0, (6 if tier == 'quick' else 8) + 1):
         out.append(dict(h='arbitrary', p=dict(chain=CHAINS[n % 4], n=n), max_seconds=1500))
     return out
